@@ -3311,6 +3311,10 @@ class SEVM:
 
                     # otherwise, create a new execution for feasible targets
                     elif self.options.symbolic_jump:
+                        # a truth value (e.g. the result of ISZERO) denotes the destination 0 or 1
+                        if type(dst) is not BV:
+                            dst = BV(dst, size=256)
+
                         reachable_targets = [
                             target
                             for target in ex.pgm.valid_jumpdests()
